@@ -176,7 +176,8 @@ LatVecs(B, m) == {LatVec(k, B) : k \in Cube(-m, m)}
 (* fractional coordinates of v are FracNum(v, B)[i] / Det(B).
    BoxCtx(B) carries the adjugate and determinant so that callers evaluating many points
    against one box compute them once; the ...P operators take such a context. *)
-BoxCtx(B) == [B |-> B, A |-> Adj(B), d |-> Det(B)]
+BoxCtx(B) == [B |-> B, A |-> Adj(B), d |-> Det(B),
+              ortho |-> (Dot(B[1], B[2]) = 0 /\ Dot(B[1], B[3]) = 0 /\ Dot(B[2], B[3]) = 0)]
 FracNumP(v, bx) == VecMat(v, bx.A)
 FracFloorP(v, bx) ==
   LET f == FracNumP(v, bx)
@@ -226,6 +227,19 @@ ImplDispTriclinic(d, B) ==
       first == SetMin({k \in 1..8 : Norm2(c[k]) = m})
   IN c[first]
 ImplDisp(d, B) == IF IsOrthogonalBox(B) THEN ImplDispOrtho(d, B) ELSE ImplDispTriclinic(d, B)
+\* the same with a precomputed box context (BoxCtx), for callers evaluating many displacements
+ImplDispOrthoP(d, bx) ==
+  LET f == FracNumP(d, bx)  a == Abs(bx.d)  s == Sgn(bx.d)
+      K(i) == FloorDiv(f[i], bx.d) + (IF 2 * ModI(s * f[i], a) > a THEN 1 ELSE 0)
+  IN VSub(d, LatVec(<<K(1), K(2), K(3)>>, bx.B))
+ImplDispTriclinicP(d, bx) ==
+  LET w == MoveInsideP(d, bx)
+      c == EagerSeq([k \in 1..8 |-> VAdd(w, LatVec(Shifts8[k], bx.B))])
+      n == EagerSeq([k \in 1..8 |-> Norm2(c[k])])
+      m == SetMin({n[k] : k \in 1..8})
+      first == SetMin({k \in 1..8 : n[k] = m})
+  IN c[first]
+ImplDispP(d, bx) == IF bx.ortho THEN ImplDispOrthoP(d, bx) ELSE ImplDispTriclinicP(d, bx)
 
 (* "the shortest image is shorter than half the smallest box height": with n2 the squared
    length of the shortest image, 4 * n2 < h_i^2 = Det^2 / |b_j x b_k|^2 for the three faces *)
